@@ -107,6 +107,26 @@ def s_none(p):
     p.expr = 'None'
 
 
+# the name of the value's class where it can be written as an annotation / isinstance argument
+TNAME = {'inst': 'K0', 'int': 'int', 'str': 'str', 'list': 'list', 'dict': 'dict',
+         'tuple': 'tuple'}
+MOVERS = {'import_mod', 'from_import', 'from_import_as', 'import_as', 'pkg_relative',
+          'pkg_init_reexport', 'star_import', 'pkg_prefix_sibling', 'pkg_self_import'}
+TYPED = set()      # carriers that need the type name in scope
+
+
+def applicable(src, chain):
+    """Typed carriers need a source whose class can be named and no module move before them
+    (the class name would be out of scope)."""
+    for k, c in enumerate(chain):
+        if c in TYPED:
+            if src not in TNAME:
+                return False
+            if src == 'inst' and any(m in MOVERS for m in chain[:k]):
+                return False
+    return True
+
+
 SOURCES = [('inst', s_instance), ('cls', s_class), ('func', s_function), ('int', s_int),
            ('str', s_str), ('list', s_list), ('dict', s_dict), ('tuple', s_tuple),
            ('none', s_none)]
@@ -121,9 +141,11 @@ BRANCHING = set()
 CORE = set()
 
 
-def carrier(name, branching=False, core=False):
+def carrier(name, branching=False, core=False, typed=False):
     def deco(f):
         CARRIERS.append((name, f))
+        if typed:
+            TYPED.add(name)
         if branching:
             BRANCHING.add(name)
         if core:
@@ -706,6 +728,120 @@ def _(p, i):
     p.expr = f'pkg{i}.val{i}'
 
 
+# --- typed carriers: annotations, docstring types, isinstance narrowing, more magic methods
+
+@carrier('isinstance_narrow', typed=True)
+def _(p, i):
+    t = TNAME[p.src]
+    p.add(f'def f{i}(q):\n    if isinstance(q, {t}):\n        return q\n    return 0.5')
+    p.expr = f'f{i}({p.expr})'
+    p.branching = True
+
+
+@carrier('param_annotation', typed=True)
+def _(p, i):
+    t = TNAME[p.src]
+    p.add(f'def f{i}(q: {t}):\n    return q')
+    p.expr = f'f{i}({p.expr})'
+
+
+@carrier('return_annotation', typed=True)
+def _(p, i):
+    t = TNAME[p.src]
+    p.add(f'def f{i}(q) -> {t}:\n    return q')
+    p.expr = f'f{i}({p.expr})'
+
+
+@carrier('var_annotation', typed=True)
+def _(p, i):
+    t = TNAME[p.src]
+    p.add(f'v{i}: {t} = {p.expr}')
+    p.expr = f'v{i}'
+
+
+@carrier('docstring_rtype', typed=True)
+def _(p, i):
+    t = TNAME[p.src]
+    p.add(f'def f{i}(q):\n    """\n    :rtype: {t}\n    """\n    return q')
+    p.expr = f'f{i}({p.expr})'
+
+
+@carrier('docstring_param_type', typed=True)
+def _(p, i):
+    t = TNAME[p.src]
+    p.add(f'def f{i}(q):\n    """\n    :type q: {t}\n    """\n    return q')
+    p.expr = f'f{i}({p.expr})'
+
+
+@carrier('magic_add')
+def _(p, i):
+    p.add(f'class C{i}:\n    def __add__(self, other):\n        return other')
+    p.expr = f'(C{i}() + {p.expr})'
+    p.protocol_names.add('__add__')
+
+
+@carrier('magic_getattr')
+def _(p, i):
+    p.add(f'class C{i}:\n    def __init__(self, q):\n        self.kept{i} = q\n'
+          f'    def __getattr__(self, name):\n        return self.kept{i}')
+    p.expr = f'C{i}({p.expr}).anything{i}'
+    p.protocol_names |= {'__init__', '__getattr__', f'anything{i}'}
+
+
+@carrier('magic_enter_self')
+def _(p, i):
+    p.add(f'class CM{i}:\n    def __init__(self, q):\n        self.res{i} = q\n'
+          f'    def __enter__(self):\n        return self\n'
+          f'    def __exit__(self, *exc):\n        return False')
+    p.add(f'with CM{i}({p.expr}) as w{i}:\n    got{i} = w{i}.res{i}')
+    p.expr = f'got{i}'
+    p.protocol_names |= {'__init__', '__enter__', '__exit__'}
+
+
+@carrier('try_finally')
+def _(p, i):
+    p.add(f'try:\n    v{i} = {p.expr}\nfinally:\n    done{i} = 1')
+    p.expr = f'v{i}'
+
+
+@carrier('while_once')
+def _(p, i):
+    p.add(f'n{i} = 1\nwhile n{i}:\n    v{i} = {p.expr}\n    n{i} = 0')
+    p.expr = f'v{i}'
+
+
+@carrier('set_comp_iter')
+def _(p, i):
+    p.add(f'for t{i} in [x{i} for x{i} in ({p.expr},)]:\n    pass')
+    p.expr = f't{i}'
+
+
+@carrier('dict_values_for')
+def _(p, i):
+    p.add("d%d = {'k': %s}" % (i, p.expr))
+    p.add(f'for t{i} in d{i}.values():\n    pass')
+    p.expr = f't{i}'
+
+
+@carrier('dict_items_for')
+def _(p, i):
+    p.add("d%d = {'k': %s}" % (i, p.expr))
+    p.add(f'for k{i}, t{i} in d{i}.items():\n    pass')
+    p.expr = f't{i}'
+
+
+@carrier('list_append')
+def _(p, i):
+    p.add(f'l{i} = []\nl{i}.append({p.expr})')
+    p.expr = f'l{i}[0]'
+
+
+@carrier('nested_function_default')
+def _(p, i):
+    p.add(f'def o{i}(q):\n    def inner(r=q):\n        return r\n    return inner()')
+    p.expr = f'o{i}({p.expr})'
+
+
 CARRIER_MAP = dict(CARRIERS)
 CARRIER_NAMES = [n for n, _ in CARRIERS]
 
@@ -729,4 +865,5 @@ def enumerate_programs(depth, sources=None, carriers=None):
     carriers = carriers or CARRIER_NAMES
     for src in sources:
         for chain in itertools.product(carriers, repeat=depth):
-            yield src, list(chain)
+            if applicable(src, chain):
+                yield src, list(chain)
